@@ -35,3 +35,11 @@ add("C18", "Hypothesis rule-based state machine over one polytope object against
     "Histories of divide / get_nodes / get_half_of_hypercube calls (generated N and projection flags) on ico, cube3D (to level 3 quick, 4 thorough) and the hypercube (level 1 / 2), plus one fixed history per polytope visiting every level to the bound; after every step the node set must match the independently built lattice one-to-one (1e-9), projections be node/|node|, the set be closed under negation, rows of earlier levels precede later ones, every earlier getter result stay a bit-exact prefix, and the half selection hold exactly one of each antipodal pair in index order.",
     "Trusted: the integer lattice generators and the independent icosahedron vertex/face table in props/c18.py (closed-form count self-test), scipy cKDTree.",
     "DESIGN.md section 5, C18")
+add("C09", "Hypothesis-generated grid specifications and index sets against an index-arithmetic reference model",
+    "Hundreds (thorough: 8 000) of generated specifications (both rotation algorithms with n_b in 1..12, three direction algorithms with n_o in 1..30, 1..4 unsorted decimal radii, both position modes): every row of the full array is compared with 10*radius*direction and the quaternion predicted by n div n_b / n mod n_b from separately constructed component grids; index helpers are compared with div/mod on generated index lists (repeats, list and array forms, None); the decomposition must return the three generating grids in order.",
+    "Trusted: numpy integer arithmetic; component grids from separately constructed objects (their correctness is C07/C08).",
+    "DESIGN.md section 5, C09")
+add("C03", "enumeration of (algorithm, N) against a first-principles spherical Voronoi oracle (bisector great-circle clipping), every pair judged",
+    "Every N in 4..64 plus level boundaries and seeded N to 400 (thorough: every N in 4..400 and samples to 1000) for ico, cube3D, randomS. For every pair (i,j) the bisector great circle is clipped by all other points in closed form; adjacency must equal 'arc length > 0' (grey zone 1e-12..1e-7 not judged, empty so far), border == arc length (2e-8), distance == great-circle angle (1e-12), area == sum of atan2 triangle areas (rtol 1e-9), areas > 0 summing to 4 pi, symmetry, empty diagonal, one pattern and entry order. Degenerate polytope grids (>=4 cells per vertex) are counted as a class.",
+    "Trusted: numpy; the 60-line oracle in vlib/geom.py with closed-form self-tests (tetrahedron, octahedron, cube).",
+    "DESIGN.md section 5, C03")
